@@ -33,7 +33,8 @@ RULE = ("A: explicit-state BFS to closure over (FILTERS,_CACHE) of a fixed graph
         "events add_filter(t,p,m) for t in {S,I1,I2,P,C,P2} x p x m, add on non-filterable/raw targets, "
         "get_filters(t,with_matches) for t in {S,I1,I2}; and, separately, of a nested graph (filterable point S3 implemented "
         "by FO=first_of([N1,N2]) with N1,N2 outside any SpecSet, parser P3F(S3); adds on S3,FO,P3F, refused adds on N1,N2, "
-        "look-ups on S3,FO,N1); a case is one (state,event) transition executed on the real "
+        "look-ups on S3,FO,N1), and of a graph with two filterable points SA<-IA, SB<-IB under one parser PAB(SA,SB) and a "
+        "combiner CAB(PAB) (adds on SA,SB,PAB,CAB,IA, look-ups on SA,SB,IA,IB); a case is one (state,event) transition executed on the real "
         "functions; non-trivial when a look-up cache entry exists in the source state (the interleaving matters). "
         "B: every content of <= L lines over {'',a,b,ab,xa,-a,a.*,[a],c} x every listed budgeted filter set x each "
         "code path (post-filter on load, cleaner allow-list, apply_filters; both of the first two also executed twice "
@@ -58,10 +59,14 @@ DEFAULT_BUDGET = 10000      # filters.MAX_MATCH; re-checked against the module w
 BOUNDS = {
     "quick": {"history": "closure for patterns {a,b} x budgets {1,default} and for pattern {a} x budgets {1,2,default}",
               "history_nested": "closure for patterns {a,b} x budgets {1,2,default} on the first_of graph",
+              "history_multi": "two-points-under-one-parser graph: closure for {a,b} x {default} (adds on SA,SB,PAB,CAB,IA) "
+                               "and for {a,b} x {1,default} (adds on SA,SB,PAB,CAB)",
               "content_max_lines": 4, "filter_sets": 46, "repeated_load_max_lines": 3, "host_max_lines": 2,
               "host_filter_sets": 16},
     "thorough": {"history": "closure for patterns {a,b} x budgets {1,2,default}",
                  "history_nested": "closure for patterns {a,b} x budgets {1,2,default} on the first_of graph",
+                 "history_multi": "two-points-under-one-parser graph: closure for {a,b} x {1,2,default} (adds on "
+                                  "SA,SB,PAB,CAB,IA)",
                  "content_max_lines": 5, "filter_sets": 153, "repeated_load_max_lines": 3, "host_max_lines": 3,
                  "host_filter_sets": 22},
 }
@@ -88,16 +93,22 @@ CL_COLLECT = "history:collected-after-later-registration"
 #  "nested": filterable point S3 implemented by FO = first_of([N1, N2]); N1, N2 are plain simple_file datasources
 #            that are NOT attributes of any SpecSet (the shape of many specs in insights/specs/default.py); P3F(S3).
 #            Content providers look filters up on exactly such nested members (ds=self of the inner simple_file).
+#  "multi":  two filterable points SA <- IA, SB <- IB under ONE parser PAB(SA, SB) and a combiner CAB(PAB): a registration
+#            through PAB / CAB lands on both points at once; what is registered on one point alone must never show up
+#            on the other.
 KIND = {"S": "ds", "I1": "ds", "I2": "ds", "S2": "ds", "IS2": "ds", "R": "ds", "IR": "ds",
         "P": "parser", "C": "combiner", "P2": "parser", "P3": "parser",
-        "S3": "ds", "FO": "ds", "N1": "ds", "N2": "ds", "P3F": "parser"}
+        "S3": "ds", "FO": "ds", "N1": "ds", "N2": "ds", "P3F": "parser",
+        "SA": "ds", "SB": "ds", "IA": "ds", "IB": "ds", "PAB": "parser", "CAB": "combiner"}
 DEPS = {"S": ["I1", "I2"], "S2": ["IS2"], "R": ["IR"], "I1": [], "I2": [], "IS2": [], "IR": [],
         "P": ["S"], "C": ["P"], "P2": ["S", "S2"], "P3": ["S2"],
-        "S3": ["FO"], "FO": ["N1", "N2"], "N1": [], "N2": [], "P3F": ["S3"]}
+        "S3": ["FO"], "FO": ["N1", "N2"], "N1": [], "N2": [], "P3F": ["S3"],
+        "SA": ["IA"], "SB": ["IB"], "IA": [], "IB": [], "PAB": ["SA", "SB"], "CAB": ["PAB"]}
 # FILTERABLE: the datasource accepts registrations (its delegate is flagged filterable).  A nested member never
 # receives its registry point's flag, so add_filter on it raises ("Filters aren't applicable to ...").
 FILTERABLE = {"S": True, "I1": True, "I2": True, "S2": False, "IS2": False, "R": False, "IR": False,
-              "S3": True, "FO": True, "N1": False, "N2": False}
+              "S3": True, "FO": True, "N1": False, "N2": False,
+              "SA": True, "SB": True, "IA": True, "IB": True}
 RAW = {"R": True, "IR": True}
 # MARKED_OFF: the component itself says `filterable = False` (a non-filterable registry point and whatever implements
 # it): no filter is ever in force for it and none flows through it.  Nested members carry no mark: the filters of
@@ -113,9 +124,13 @@ FIXTURES = {
                "add": ["S3", "FO", "P3F"],
                "bad": ["N1", "N2"],                     # unflagged nested members: documented refusal
                "get": ["S3", "FO", "N1"]},
+    "multi": {"comps": ["SA", "SB", "IA", "IB", "PAB", "CAB"],
+              "add": ["SA", "SB", "PAB", "CAB", "IA"],
+              "bad": [],
+              "get": ["SA", "SB", "IA", "IB"]},
 }
-PART_A = FIXTURES["main"]["comps"] + FIXTURES["nested"]["comps"]
-ADD_TARGETS = FIXTURES["main"]["add"] + FIXTURES["nested"]["add"]
+PART_A = [n for g in ("main", "nested", "multi") for n in FIXTURES[g]["comps"]]
+ADD_TARGETS = [n for g in ("main", "nested", "multi") for n in FIXTURES[g]["add"]]
 
 NF_FACTORIES = ["simple_file", "glob_file", "first_file", "simple_command", "command_with_args",
                 "foreach_execute", "foreach_collect"]
@@ -350,10 +365,28 @@ def _build():
         def parse_content(self, content):
             self.lines = content
 
+    class C07MSpecs(SpecSet):
+        sa = RegistryPoint(filterable=True)
+        sb = RegistryPoint(filterable=True)
+
+    class C07MHost(C07MSpecs):
+        sa = simple_file("/in_file", context=HostContext)
+        sb = simple_file("/in_file", context=HostContext)
+
+    @parser(C07MSpecs.sa, C07MSpecs.sb)
+    class C07PAB(Parser):
+        def parse_content(self, content):
+            self.lines = content
+
+    @combiner(C07PAB)
+    def c07_cab(p):
+        return p
+
     fx.comp = {"S": C07Specs.s, "I1": C07Host.s, "I2": C07Archive.s, "S2": C07Specs.s2, "IS2": C07Host.s2,
                "R": C07Specs.r, "IR": C07Host.r, "P": C07P, "C": c07_c, "P2": C07P2, "P3": C07P3,
                "CMD": C07Specs.cmd, "ICMD": C07Host.cmd, "PCMD": C07PCmd,
-               "S3": C07NSpecs.s3, "FO": C07NHost.s3, "N1": c07_n1, "N2": c07_n2, "P3F": C07P3F}
+               "S3": C07NSpecs.s3, "FO": C07NHost.s3, "N1": c07_n1, "N2": c07_n2, "P3F": C07P3F,
+               "SA": C07MSpecs.sa, "SB": C07MSpecs.sb, "IA": C07MHost.sa, "IB": C07MHost.sb, "PAB": C07PAB, "CAB": c07_cab}
     for f in NF_FACTORIES:
         fx.comp["NF_" + f] = getattr(C07Specs, "nf_" + f)
         fx.comp["INF_" + f] = getattr(C07Host, "nf_" + f)
@@ -429,7 +462,8 @@ def _rmroot(fx):
 # get_delegate(...).filterable / .raw, plugins.is_datasource, the components' `filterable` attribute), the module
 # constant ENABLED, and the two module-level tables FILTERS and _CACHE.  They write FILTERS and _CACHE only.  The
 # graph and ENABLED are fixed during the search, so two histories that leave the same (FILTERS, _CACHE) - restricted
-# to the fixture's components, nothing else is reachable from them - have the same futures.  Dict insertion order is
+# to the fixture's components, nothing else is reachable from them - and the same sharing of dict objects between
+# table slots (in-place updates make object identity observable) have the same futures.  Dict insertion order is
 # dropped from the canonical form: every observation made here (a set, a dict compared by equality, raised / not
 # raised) and every table update (max over the union of keys) is insensitive to it.  The merge is additionally
 # validated: each discovered state's shortest history is re-executed from empty tables and must produce the same
@@ -441,13 +475,26 @@ def _rmroot(fx):
 # ---------------------------------------------------------------------------------------------
 def _canon(fx, g="main"):
     """Canonical (FILTERS, _CACHE) restricted to the components of fixture g: two sorted tuples of
-    (component index, sorted items).  Entries of other components are never touched."""
+    (component index, sorted items), plus the SHARING pattern: which table slots hold the very same dict object
+    (an in-place update through one slot is visible through the others, so identity is part of the state; a
+    correct implementation never shares, the third component is then empty).  Entries of other components are
+    never touched."""
     idx = fx.idxs[g]
-    f = [(idx[c], tuple(sorted(v.items()))) for c, v in fx.filters.FILTERS.items() if c in idx]
-    k = [(idx[c], tuple(sorted(v.items()))) for c, v in fx.filters._CACHE.items() if c in idx]
+    f, k, ids = [], [], {}
+    for c, v in fx.filters.FILTERS.items():
+        if c in idx:
+            f.append((idx[c], tuple(sorted(v.items()))))
+            ids.setdefault(id(v), []).append((0, idx[c]))
+    for c, v in fx.filters._CACHE.items():
+        if c in idx:
+            k.append((idx[c], tuple(sorted(v.items()))))
+            ids.setdefault(id(v), []).append((1, idx[c]))
     f.sort()
     k.sort()
-    return (tuple(f), tuple(k))
+    shared = ()
+    if len(ids) < len(f) + len(k):
+        shared = tuple(sorted(tuple(sorted(slots)) for slots in ids.values() if len(slots) > 1))
+    return (tuple(f), tuple(k), shared)
 
 
 def _restore(fx, canon, g="main"):
@@ -461,6 +508,11 @@ def _restore(fx, canon, g="main"):
         F[comps[i]] = dict(items)
     for i, items in canon[1]:
         C[comps[i]] = dict(items)
+    for slots in canon[2]:
+        tabs = [F if t == 0 else C for t, _ in slots]
+        one = tabs[0][comps[slots[0][1]]]
+        for tab, (_, i) in zip(tabs[1:], slots[1:]):
+            tab[comps[i]] = one
 
 
 def _do(fx, ev):
@@ -558,7 +610,7 @@ def explore_histories(unit, res):
     G = FIXTURES[g]
     GET_TARGETS = G["get"]
     ev_get = [["get", t, wm] for t in GET_TARGETS for wm in (False, True)]
-    ev_add = [["add", t, p, m] for t in G["add"] for p in patterns for m in budgets]
+    ev_add = [["add", t, p, m] for t in unit.get("add", G["add"]) for p in patterns for m in budgets]
     ev_add += [["add", t, patterns[0], None] for t in G["bad"]]
     get_idx = dict((t, G["comps"].index(t)) for t in GET_TARGETS)
     first_get = GET_TARGETS[0]
@@ -581,7 +633,7 @@ def explore_histories(unit, res):
     def counted(real, ev):
         if only2 is None:
             return True
-        return (ev[0] == "add" and ev[3] == only2) or any(b == only2 for tab in real for (_, items) in tab for (_, b) in items)
+        return (ev[0] == "add" and ev[3] == only2) or any(b == only2 for tab in real[:2] for (_, items) in tab for (_, b) in items)
 
     try:
         while frontier:
@@ -1109,6 +1161,15 @@ def units(tier, seed):
                    "count_only_with_budget": 2})
     else:
         us.append({"part": "history", "name": "ab_1_2_default", "patterns": ["a", "b"], "budgets": [1, 2, None]})
+    # two filterable points under one parser + combiner: a third graph, explored to closure separately
+    if tier == "quick":
+        us.append({"part": "history", "fixture": "multi", "name": "multi_ab_default", "patterns": ["a", "b"],
+                   "budgets": [None]})
+        us.append({"part": "history", "fixture": "multi", "name": "multi_points_ab_1_default", "patterns": ["a", "b"],
+                   "budgets": [1, None], "add": ["SA", "SB", "PAB", "CAB"], "count_only_with_budget": 1})
+    else:
+        us.append({"part": "history", "fixture": "multi", "name": "multi_ab_1_2_default", "patterns": ["a", "b"],
+                   "budgets": [1, 2, None]})
     # nested specs (first_of members): a second, small graph explored to closure on the full alphabet in both tiers
     us.append({"part": "history", "fixture": "nested", "name": "nested_ab_1_2_default", "patterns": ["a", "b"],
                "budgets": [1, 2, None]})
@@ -1230,7 +1291,8 @@ TECHNIQUE = ("explicit-state BFS to closure over the real add_filter/get_filters
              "paths (real grep -F on the host path) against a declarative oracle")
 LEVEL_TEXT = ("Histories: the reachable (FILTERS,_CACHE) state space of a fixed graph (registry point, two implementations, "
               "parsers, a combiner, non-filterable and raw targets) and, separately, of a nested graph (registry point "
-              "implemented by first_of over two datasources outside any SpecSet, a parser) is explored to closure with the "
+              "implemented by first_of over two datasources outside any SpecSet, a parser) and of a graph with two filterable "
+              "points under one parser and a combiner, is explored to closure with the "
               "real functions as the transition relation; every look-up in every reachable state is compared with a cache-free reference (union "
               "semantics), and every state's shortest history is re-executed from empty tables; the same refused-then-registered "
               "interleaving is also observed through real host collections (8 point x registration-target pairs). Contents: every content of "
@@ -1241,5 +1303,5 @@ LEVEL_TEXT = ("Histories: the reachable (FILTERS,_CACHE) state space of a fixed 
 LEVEL_NOTE = ("Trusted: the fixture's declared graph (checked against the dr registries), the 40-line reference model "
               "(cross-checked against a second formulation transcribed from the statement on every discovered state), the "
               "declarative content judge (validated against the documented algorithm and five known-wrong outputs on every "
-              "run). Budgets across components: weaker reading (any contributing component's budget). Two graph shapes only (plain implementations; "
-              "first_of nesting one level deep); container factories and glob/first-file content are not pushed through the content paths.")
+              "run). Budgets across components: weaker reading (any contributing component's budget). Three graph shapes only (plain implementations; "
+              "first_of nesting one level deep; one parser + combiner over two filterable points); container factories and glob/first-file content are not pushed through the content paths.")
